@@ -263,14 +263,21 @@ pub fn gradient_src(ctx: &Ctx, ext: f32) -> BoxedStrategy<SrcSpec> {
             SrcSpec::Linear { stops, spread, x0, y0, x1, y1 }
         }),
         (stops(ctx), 0u8..3, c(), c(), 1.0f32..ext + 4.0).prop_map(|(stops, spread, cx, cy, r)| SrcSpec::Radial { stops, spread, cx, cy, r }),
-        (stops(ctx), 0u8..3, c(), c(), 2.0f32..ext + 4.0, 0.0f32..1.0, 0.0f32..1.0, 0.0f32..360.0).prop_map(|(stops, spread, x2, y2, r2, fr, fd, ang)| {
-            // circle 1 strictly inside circle 2
-            let r1 = (r2 - 1.0) * fr * 0.9;
+        (stops(ctx), 0u8..3, c(), c(), 2.0f32..ext + 4.0, 0.0f32..1.0, 0.0f32..1.0, 0.0f32..360.0, (0u8..4, 0u8..6)).prop_map(|(stops, spread, x2, y2, r2, fr, fd, ang, (sel_r, sel_d))| {
+            // circle 1 strictly inside circle 2. Exact coincidences that random floats never produce are
+            // built in: a first circle of radius exactly 0 (focal point), exactly equal centres, and centres
+            // sharing exactly one coordinate
+            let r1 = if sel_r == 0 { 0.0 } else { (r2 - 1.0) * fr * 0.9 };
             let dmax = (r2 - r1 - 0.5).max(0.0) * 0.95;
-            // one in five concentric (exactly the same centre), which random offsets never produce
-            let d = if (ang.to_bits() >> 4) % 5 == 0 { 0.0 } else { dmax * fd };
+            let d = dmax * fd;
             let (cs, sn) = rot(ang);
-            SrcSpec::TwoCircle { stops, spread, x1: x2 + d * cs, y1: y2 + d * sn, r1, x2, y2, r2 }
+            let (x1, y1) = match sel_d {
+                0 => (x2, y2),
+                1 => (x2 + if cs < 0.0 { -d } else { d }, y2),
+                2 => (x2, y2 + if sn < 0.0 { -d } else { d }),
+                _ => (x2 + d * cs, y2 + d * sn),
+            };
+            SrcSpec::TwoCircle { stops, spread, x1, y1, r1, x2, y2, r2 }
         }),
         (stops(ctx), 0u8..3, c(), c(), 0.0f32..300.0, 10.0f32..360.0).prop_map(move |(stops, spread, cx, cy, a0, da)| {
             let a0 = if sweep_free { a0 } else { 0.0 };
